@@ -205,6 +205,16 @@ def _field_size(field, type_definition):
     return size * type_definition.addressable_unit
 
 
+def _size_bound_in_bits(bound, type_definition):
+    """Returns a bound of the size of a field in bits; may be +/-infinity."""
+    if bound in ("infinity", "-infinity"):
+        # The size has no known bound in that direction (which is reported by
+        # _check_bounds_on_runtime_integer_expressions): no fixed-size type is
+        # too big or too small for it as far as that bound is concerned.
+        return float(bound)
+    return int(bound) * type_definition.addressable_unit
+
+
 def _check_type_requirements_for_field(
     type_ir, type_definition, field, ir, source_file_name, errors
 ):
@@ -213,13 +223,11 @@ def _check_type_requirements_for_field(
         return
 
     if field.type.has_field("atomic_type"):
-        field_min_size = (
-            int(field.location.size.type.integer.minimum_value)
-            * type_definition.addressable_unit
+        field_min_size = _size_bound_in_bits(
+            field.location.size.type.integer.minimum_value, type_definition
         )
-        field_max_size = (
-            int(field.location.size.type.integer.maximum_value)
-            * type_definition.addressable_unit
+        field_max_size = _size_bound_in_bits(
+            field.location.size.type.integer.maximum_value, type_definition
         )
         field_is_atomic = True
     else:
